@@ -1,10 +1,64 @@
-"""B-cfi_entries: CIE/FDE decoding, pointer encodings, .eh_frame_hdr table  (DESIGN.md 6 C05 / C01 / C10).
+"""B-cfi_entries: CIE/FDE decoding, DW_EH_PE_* pointer encodings, .eh_frame_hdr table  (DESIGN.md 6 C05; C01, C10).
+
+Source: /repo/src/read/cfi.rs, DwEhPe methods of /repo/src/constants.rs, From impls of DebugFrameOffset/EhFrameOffset
+(common.rs).  Spec functions (written from LSB Core generic 10.5/10.6 and DWARF 5 6.4.1, not from the code):
+vx/specs/cfi_entries.rs (part 1 -> module crate::vspec_cfi; part 2, after the marker line, -> ghost text inside
+crate::read::cfi because it relates gimli's private fields to the models).
+
+FUNCTIONS UNDER CONTRACT (real bodies verified; owners C01+C05 for the built-in safety/termination obligations)
+  constants: DwEhPe::{format, application, is_absent, is_indirect, is_valid_encoding}  (vs the LSB encoding table, all 256 bytes)
+  pointers : parse_pointer_encoding, parse_encoded_value, parse_encoded_pointer, Pointer::{new, direct, pointer}
+  sections : DebugFrame/EhFrame::{set_address_size, set_vendor}; trait _UnwindSectionPrivate (contract = the two standards,
+             selected by ghost `is_eh()`) and BOTH impls: section, has_zero_terminator, is_cie, cie_offset_encoding,
+             resolve_cie_offset, has_address_and_segment_sizes, address_size, vendor; UnwindOffset::into (+2 impls); From impls
+  entries  : parse_cfi_entry_prefix, parse_cfi_entry, CommonInformationEntry::{parse, from_prefix} + accessors offset, encoding,
+             address_size, entry_len, version, augmentation, lsda_encoding, personality_with_encoding, fde_address_encoding,
+             code/data_alignment_factor, return_address_register; Augmentation::parse (fold over the string vs `aug_step`),
+             AugmentationData::parse; PartialFrameDescriptionEntry::{parse_partial, from_prefix, parse, offset, cie_offset,
+             entry_len}; FrameDescriptionEntry::{parse_rest, parse_addresses, offset, cie, entry_len, initial_address,
+             end_address, len, contains, lsda}; CfiEntriesIter::next (iterator protocol, zero-length `continue` loop, terminator)
+  hdr      : EhFrameHdr::parse, ParsedEhFrameHdr::{eh_frame_ptr, table}, EhHdrTableIter::{next, nth},
+             EhHdrTable::{iter, lookup (safety, termination, encoding rejection only), pointer_to_offset}
+
+EXPECTED RESULT ON THE PINNED TREE: exit 1 with exactly three failed obligations, all genuine defects (DESIGN F6), each
+reproduced natively (native/src/bin/f_cfi_entries_{1,2,3}.rs):
+  EhHdrTable::lookup `(len / 2) * row_size`, EhHdrTableIter::nth `n * row_size`, EhHdrTable::pointer_to_offset `ptr - eh_frame_ptr`.
+
+ASSUMED (TRUSTED ledger = core's + section_clone)
+  section_clone   R-CLONE for `section.clone()` in PartialFrameDescriptionEntry::from_prefix: the clone of a section has the
+                  same ghost view/address size (DebugFrame/EhFrame derive Clone+Copy; Verus gives derived Clone of a generic
+                  type no specification).  reader_clone (core) is used for the five `reader.clone()` sites.
+  not in the ledger scan but assumptions all the same:
+  `unsafe impl Structural for DwEhPe`  derive(PartialEq) on the dw! newtype is structural equality (needed for `==`)
+  `#[verifier::external_derive(Clone)]` on CommonInformationEntry / FrameDescriptionEntry: the derived Clone is outside the
+                  verifier (it would have to re-establish the type invariant); no extracted function clones them
+  inherent `fn default()` models of `#[derive(Default)]` for Augmentation / AugmentationData (R-ATTR drops the derive)
+  type invariants (checked at every construction): CIE.address_size and FDE.cie.address_size are in {1,2,4,8}
+  API-misuse preconditions (explicit `requires`, not panics on untrusted data): the *configured* address size
+  (EhFrameHdr::parse argument, DebugFrame/EhFrame::set_address_size) is 1, 2, 4 or 8 - otherwise ones_sized() shifts by >= 64.
+  Logged one-off rewrites: R-PARAM (`_` fn parameter gets a name), R-ETA (`.map(EhFrameOffset)` eta-expanded), closure
+  type/postcondition annotations and one `let mut data: Option<R>` annotation are insertions only.
+
+DROPPED (R-DROP): every method that mentions CallFrameInstruction*/UnwindTable/UnwindContext (batch cfi_unwind), Section/From
+  impls of the section types, Option::is_some_and users (CIE::has_lsda, is_signal_trampoline, FDE::is_signal_trampoline),
+  `personality()` (tuple-pattern closure), FallibleIterator/Iterator adaptor impls.
+
+NOT DECIDED here
+  * group 4: UnwindSection::{entries, cie_from_offset, partial_fde_from_offset, fde_from_offset, fde_for_address,
+    unwind_info_for_address} and EhHdrTable::{fde_for_address, unwind_info_for_address}: trait default methods that call generic
+    fns bounded by the same trait (Verus cycle) and re-borrow an FnMut (`&mut get_cie`) in a loop.
+  * EhHdrTable::lookup functional contract (sorted table => last key <= address): only safety/termination/encoding rejection.
+  * "succeeds exactly when some FDE covers" / agreement of the three lookup paths / readelf agreement (DESIGN C05 ND).
+  * error *values* of rejections that pass through core reads (the core layer does not constrain callee error values), totality
+    (`Ok` for every well-formed input) where core contracts are Ok-direction only (read_initial_length, read_address,
+    read_null_terminated_slice, LEB128).
+  * that the zero-length words skipped by CfiEntriesIter::next in .debug_frame are all zero (only: the entry returned starts at
+    its reported offset >= the old position, and is decoded from there).
 """
 from lib import *
 from batches import core
 
 TRUSTED = list(core.TRUSTED) + ['section_clone']
-VERUS_ARGS = ['--rlimit', '20']
 
 OWN = ['C01', 'C05']
 IN0 = 'old(input).rv()'
@@ -313,7 +367,9 @@ def group2b(ctx, sk):
                   f'[C05:aug-fold] res matches Ok(a) ==> (aug_fold({S0}, 0, aug_init({IN0}), {BE}, {SEC}.start, address_size) matches Some(st) && aug_is(a, st) && {IN1} == st.input)',
                   f'[C05:aug-unknown] ({{ let c = {S0}.at(0); c != 0x7a && c != 0x53 }}) ==> res is Err',
                   FRAME],
-              loops={0: AUG_INV})
+              loops={0: AUG_INV},
+              before=[('let ch = augmentation_str.read_u8()?;', 'proof { reveal_with_fuel(aug_fold, 1); }'),
+                      ('Ok(augmentation)', 'proof { reveal_with_fuel(aug_fold, 1); }')])
     sk.add(M, au)
     # 'P' consumes data: relation between exec personality and the model
     sk.add(M, 'spec fn aug_pers(p: Option<(constants::DwEhPe, Pointer)>) -> Option<(u8, int)> { match p { Some(ep) => Some((ep.0.0, ptr_val(ep.1) as int)), None => None } }',
